@@ -107,6 +107,13 @@ func Term(v ssa.Value) string {
 	return t.val(v)
 }
 
+// TermAt renders v as it is known at block b: a phi that a guard dominating b pins to one
+// incoming edge is rendered as that edge.
+func TermAt(v ssa.Value, b *ssa.BasicBlock) string {
+	t := &termer{phis: map[*ssa.Phi]bool{}, ctx: b}
+	return t.val(v)
+}
+
 // AddrTerm returns the canonical term of the location an address value denotes (without '&').
 func AddrTerm(v ssa.Value) string {
 	t := &termer{phis: map[*ssa.Phi]bool{}}
